@@ -1,6 +1,7 @@
 mod common;
 mod c12;
 mod c13;
+mod c15;
 mod oracle;
 
 use common::*;
@@ -59,6 +60,7 @@ fn main() {
     let report = match prop.as_str() {
         "C12" => c12::run(&o),
         "C13" => c13::run(&o),
+        "C15" => c15::run(&o),
         _ => {
             eprintln!("unknown property {prop}");
             std::process::exit(2);
